@@ -6,7 +6,9 @@ ASSUMPTIONS = [
     'bounded model checking on the REAL functions and REAL 256-bit numext arithmetic (Kani, in-crate harness)',
     'cuts: alloc::fmt::format -> String::new(); log -> no-op; numext U256::_div_with_rem -> division contract (fresh q,r with '
     'r<d and q*d+r=x by the real multiplication); compact_to_difficulty -> two-entry table chosen by the harness',
-    'loop bound: at most 3 epoch switches (thorough: the same; more is outside the claim); TAU = 2',
+    'loop bound: at most 3 epoch switches (more is outside the claim); TAU = 2',
+    'QUICK tier (900 s budget of the every-change check): panic-freedom with <= 1 epoch switch, completeness inside one epoch, the tau kernels and split_epochs; '
+    'soundness (exact sums / tau envelope) and completeness across epoch switches are decided in the THOROUGH tier only',
     'completeness (O14.1) with block difficulties < 2^56 and epoch lengths < 16 (probe P20: wider products do not finish)',
     'the relation of the tau model to the consensus rule is outside the claim',
 ]
@@ -24,9 +26,11 @@ def k(ob, harness, desc, bounds, timeout=1500, mem=8, covers=0, tiers=('quick', 
 
 def panic_obligations(prefix):
     return [
+        k(prefix + '-vtd-no-panic-q', 'vtd_no_panic_q', 'verify_total_difficulty never aborts: arbitrary (also ill-formed) epochs, compact targets and 256-bit totals',
+          'all 24/16/16-bit epoch fields (also ill-formed / reversed), all u32 compact targets, all 256-bit totals, block difficulties < 2^128; <=1 epoch switch', weight=6, tiers=('quick',)),
         k(prefix + '-vtd-no-panic', 'vtd_no_panic', 'verify_total_difficulty never aborts: arbitrary (also ill-formed) epochs, compact targets '
           'and 256-bit totals', 'all 24/16/16-bit epoch fields (also ill-formed / reversed), all u32 compact targets, all 256-bit totals, block difficulties < 2^128 (what proof-of-work can reach); <=3 epoch switches',
-          weight=8),
+          weight=8, timeout=3000, tiers=('thorough',)),
         k(prefix + '-no-panic-wide', 'vtd_no_panic_wide', 'verify_total_difficulty and verify_tau never abort, with ARBITRARY 256-bit block difficulties',
           'all epoch fields, compact targets, 256-bit totals and 256-bit block difficulties; <=3 epoch switches', weight=8, timeout=3000, mem=20,
           tiers=('thorough',)),
@@ -40,14 +44,22 @@ def obligations():
           'n <= 3', covers=3),
         k('O14.2-split', 'split_kernels', 'split_epochs groups add up to n and remove_last_epoch drops exactly one, for every n>=2, k<n',
           'all n < 2^24 (difference of 24-bit epoch numbers), k<n', covers=1, weight=1),
+        k('O14.2-sound-q', 'vtd_sound_q1', 'verify_total_difficulty Ok implies: not decreasing; same epoch => total = d*(delta index); one switch => exact unaligned sum',
+          'well-formed ordered epochs, <=1 switch, block difficulties < 2^32, totals 256-bit', covers=2, weight=7, timeout=2400, mem=10, tiers=('thorough',)),
         k('O14.2-sound', 'vtd_sound_q', 'verify_total_difficulty Ok implies: not decreasing; same epoch => total = d*(delta index); one switch => '
           'exact unaligned sum; two switches => total - unaligned within [E/2, 2E]', 'well-formed ordered epochs, <=2 switches, '
-          'block difficulties < 2^64, totals 256-bit', covers=3, weight=9, timeout=1500, mem=10, tiers=('quick',)),
+          'block difficulties < 2^64, totals 256-bit', covers=3, weight=9, timeout=3000, mem=10, tiers=('thorough',)),
         k('O14.2-sound-t', 'vtd_sound', 'verify_total_difficulty Ok implies: not decreasing; same epoch => total = d*(delta index); one switch => '
           'exact unaligned sum; more => total - unaligned within [sum E/2^i, sum E*2^i]', 'well-formed ordered epochs, <=3 switches, '
           'block difficulties < 2^64, totals 256-bit', covers=3, weight=9, timeout=3000, mem=20, tiers=('thorough',)),
         k('O14.1-complete-n2', 'complete_n2', 'every legal history with two epoch switches is accepted by verify_tau and verify_total_difficulty',
-          'block difficulties < 2^56, epoch lengths < 16, arbitrary positions', covers=1, weight=9, timeout=2400, mem=10),
+          'block difficulties < 2^56, epoch lengths < 16, arbitrary positions', covers=1, weight=9, timeout=3000, mem=10, tiers=('thorough',)),
         k('O14.1-complete-n01', 'complete_n01', 'every legal history inside one epoch or across exactly one switch is accepted',
           'block difficulties < 2^56, epoch lengths < 16', covers=1, weight=6, timeout=3000, mem=20, tiers=('thorough',)),
+        k('O14.1-complete-q0', 'complete_n0_q', 'every legal history inside one epoch is accepted by verify_tau and verify_total_difficulty', 'block difficulties < 2^56, epoch lengths < 16, same epoch',
+          covers=1, weight=4, timeout=900, mem=8, tiers=('quick',)),
+        k('O14.2-sound-q0', 'vtd_sound_q0', 'verify_total_difficulty Ok implies: not decreasing; inside one epoch total = d*(delta index)', 'well-formed ordered end points in the same epoch, block difficulties < 2^64, totals 256-bit',
+          covers=1, weight=4, timeout=1800, mem=8, tiers=('thorough',)),
+        k('O14.1-complete-q', 'complete_n01_q', 'every legal history inside one epoch or across exactly one switch is accepted by verify_tau and verify_total_difficulty',
+          'block difficulties < 2^24, epoch lengths < 8', covers=1, weight=6, timeout=2400, mem=10, tiers=('thorough',)),
     ]
